@@ -400,6 +400,11 @@ def seq_alphabet(a, tier, seed):
         al.append(NW.pack_frame(org, child, 7, t, res, H.pattern(n, seed, t + 1)))
     for t, res, n in ((0, 0, 2), (194, 0, 0), (148, 2, 24), (150, 131, 3)):
         al.append(NW.pack_frame(DEFAULT if t == 194 else org, MC, 8, t, res, H.pattern(n, seed, t + 2)))
+    # mesh requests that arrive as multicasts (what a node without an address can send), and frames whose addresses contain the digits 6 / 7
+    for t, res, n in ((196, 0, 1), (198, 0, 2), (197, 0, 0), (195, 9, 0)):
+        al.append(NW.pack_frame(org, MC, 11, t, res, H.pattern(n, seed, t + 3)))
+    al.append(NW.pack_frame(0o7777, 0o7777, 9, 1, 0, b"xy"))
+    al.append(NW.pack_frame(0o6, a, 9, 196, 0, b"\x03z"))
     if a == 0:
         al.append(NW.pack_frame(DEFAULT, 0, 6, 195, 9, b""))  # a direct address request (denied by a master whose level 1 is full)
     al.append(NW.pack_frame(org, dc["inv-5+digits"][0], 9, 1, 0, b"xy"))
